@@ -5,6 +5,7 @@ import (
 	"os"
 	"strconv"
 	"strings"
+	"sync"
 
 	"github.com/ChrisTrenkamp/xsel"
 )
@@ -172,6 +173,44 @@ func init() {
 					ev["innerLen"] = num("string-length(string(//e[not(e)]))")
 				}
 				writeTrace(ev)
+			}
+		case "deepconc":
+			// one tree nested tens of thousands of levels deep, walked by many goroutines at once
+			for _, cfg := range [][3]int{{20000, 32, 12}, {30000, 48, 8}} {
+				d, gor, rounds := cfg[0], cfg[1], cfg[2]
+				text := strings.Repeat("<e>", d) + strings.Repeat("<b/>", 2000) + strings.Repeat("</e>", d)
+				root, err := xsel.ReadXml(strings.NewReader(text))
+				if err != nil {
+					fmt.Println("scale-record: ReadXml failed:", err)
+					return 2
+				}
+				g, _ := xsel.BuildExpr("count(//e) + count(//b)")
+				want := float64(d + 2000)
+				var mu sync.Mutex
+				evals, wrong, errs := 0, 0, 0
+				for r := 0; r < rounds; r++ {
+					var wg sync.WaitGroup
+					start := make(chan struct{})
+					for k := 0; k < gor; k++ {
+						wg.Add(1)
+						go func() {
+							defer wg.Done()
+							<-start
+							o := execSafe(root, &g, nil)
+							mu.Lock()
+							evals++
+							if o.err != nil || o.panic != nil {
+								errs++
+							} else if n, ok := o.res.(xsel.Number); !ok || float64(n) != want {
+								wrong++
+							}
+							mu.Unlock()
+						}()
+					}
+					close(start)
+					wg.Wait()
+				}
+				writeTrace(map[string]any{"ev": "deepconc", "depth": d, "goroutines": gor, "rounds": rounds, "evals": evals, "wrong": wrong, "errors": errs})
 			}
 		default:
 			return 2
